@@ -317,6 +317,16 @@ func genXKinds(prop string, emit func(string)) {
 				}
 			}
 		}
+	case "C08fn", "C17fn":
+		for _, dt := range []string{"f32", "f64", "i8", "i16", "i32", "i64", "i", "u8", "u16", "u32", "u64", "u"} {
+			for _, op := range []string{"sub", "add", "max"} {
+				for _, def := range []string{"0", "10"} {
+					for _, c := range []string{"4 0", "2,3 0", "2,3 1", "3,2 1", "2,3,2 0", "2,3,2 1", "2,3,2 2", "1,3,2 2", "2,2,3,2 1", "2,2,3,2 3", "2,1 1", "1,4 1"} {
+						emit(fmt.Sprintf("xredfn %s %s %s %s", dt, op, def, c))
+					}
+				}
+			}
+		}
 	case "C14":
 		for _, f := range []string{"csv", "gob", "pb", "fb"} {
 			for _, v := range []string{"hash", "comma", "quote", "space", "newline", "empty", "unicode", "numlike", "punct"} {
@@ -491,6 +501,124 @@ func init() {
 				return xredRun([]uint64{18446744073709551615, 1, 18000000000000000000, 9000000000000000000, 9000000000000000000, 0, 5, 18446744073709551615, 18446744073709551615, 1, 7, 1}, a[1], sh, a[3])
 			case "u":
 				return xredRun([]uint{18446744073709551615, 1, 18000000000000000000, 9000000000000000000, 9000000000000000000, 0, 5, 18446744073709551615, 18446744073709551615, 1, 7, 1}, a[1], sh, a[3])
+			}
+			return "unsupported"
+		})
+	}
+}
+
+// xredfn <dt> <sub|add|max> <default> <shape> <axis> : the generic Dense.Reduce(fn, axis, default)
+// with a function that is NOT commutative (sub) and a default value that is not neutral, on every
+// numeric element type: the result is the LEFT fold of the lane in index order - seeded with the
+// default value along the last axis when that is not also the first (the library's behaviour
+// recorded as F91), unseeded along the other axes.
+func xredfnRun[T xnum](op string, def int, sh []int, axis int) string {
+	n := prod(sh)
+	back := make([]T, n)
+	for i := range back {
+		back[i] = T((i*7)%5 + 1 + i%3)
+	}
+	t := tensor.New(tensor.WithShape(sh...), tensor.WithBacking(append([]T(nil), back...)))
+	fn := func(a, b T) T {
+		switch op {
+		case "sub":
+			return a - b
+		case "add":
+			return a + b
+		default:
+			if b > a {
+				return b
+			}
+			return a
+		}
+	}
+	r, err := t.Reduce(fn, axis, T(def))
+	if err != nil {
+		return "err"
+	}
+	st := tensor.Shape(sh).CalcStrides()
+	var rest []int
+	for i := range sh {
+		if i != axis {
+			rest = append(rest, sh[i])
+		}
+	}
+	seeded := axis == len(sh)-1 && axis != 0
+	var want []T
+	for _, c := range boxCoords(rest) {
+		off, k := 0, 0
+		for i := range sh {
+			if i != axis {
+				off += c[k] * st[i]
+				k++
+			}
+		}
+		var acc T
+		j0 := 0
+		if seeded {
+			acc = T(def)
+		} else {
+			acc = back[off]
+			j0 = 1
+		}
+		for j := j0; j < sh[axis]; j++ {
+			acc = fn(acc, back[off+j*st[axis]])
+		}
+		want = append(want, acc)
+	}
+	rd := r
+	var got []T
+	if rd.IsScalar() {
+		got = []T{rd.ScalarValue().(T)}
+	} else {
+		got = rd.Data().([]T)
+	}
+	if len(got) != len(want) {
+		return fmt.Sprintf("diff:len%d", len(got))
+	}
+	for i := range want {
+		if got[i] != want[i] {
+			return fmt.Sprintf("diff:%d:%v:%v", i, got[i], want[i])
+		}
+	}
+	for i, v := range t.Data().([]T) {
+		if v != back[i] {
+			return "operand-changed"
+		}
+	}
+	return "same"
+}
+
+func init() {
+	execs["xredfn"] = func(a []string) string {
+		return guard(func() string {
+			sh := ints(a[3])
+			def, ax := atoi(a[2]), atoi(a[4])
+			switch a[0] {
+			case "f32":
+				return xredfnRun[float32](a[1], def, sh, ax)
+			case "f64":
+				return xredfnRun[float64](a[1], def, sh, ax)
+			case "i8":
+				return xredfnRun[int8](a[1], def, sh, ax)
+			case "i16":
+				return xredfnRun[int16](a[1], def, sh, ax)
+			case "i32":
+				return xredfnRun[int32](a[1], def, sh, ax)
+			case "i64":
+				return xredfnRun[int64](a[1], def, sh, ax)
+			case "i":
+				return xredfnRun[int](a[1], def, sh, ax)
+			case "u8":
+				return xredfnRun[uint8](a[1], def, sh, ax)
+			case "u16":
+				return xredfnRun[uint16](a[1], def, sh, ax)
+			case "u32":
+				return xredfnRun[uint32](a[1], def, sh, ax)
+			case "u64":
+				return xredfnRun[uint64](a[1], def, sh, ax)
+			case "u":
+				return xredfnRun[uint](a[1], def, sh, ax)
 			}
 			return "unsupported"
 		})
